@@ -15,6 +15,7 @@ import Qvnt.Spec.Denote
 import Qvnt.Spec.Dft
 import Qvnt.Model.Interp
 import Qvnt.Spec.RefSem
+import Qvnt.Model.Pool
 
 open Qvnt
 
@@ -480,6 +481,46 @@ def cmpSummary (r : Report) (st : DSt) (ln : Nat) (tag : String) (int : Interp F
       | some pv, some (iv, _) => if closeVec pv iv then r else r.mismatch st ln (tag ++ ".tail.probe") (firstDiff pv iv) (showVec iv)
       | _, _ => r
     | _ => r
+
+
+/-! ### C19: the event log of `threads.rs` against the transition system -/
+
+def parsePoolEv (tok : String) : Option (Nat × Pool.Ev) :=
+  let optNat (a : String) : Option (Option Nat) := if a == "-" then some none else a.toNat?.map some
+  match tok.splitOn ":" with
+  | [t, "C", n] => do some (← t.toNat?, .call (← n.toNat?))
+  | [t, "RA"] => do some (← t.toNat?, .readAcq)
+  | [t, "RR", a] => do some (← t.toNat?, .readRel (← optNat a))
+  | [t, "WA"] => do some (← t.toNat?, .writeAcq)
+  | [t, "WR", a] => do some (← t.toNat?, .writeRel (← optNat a))
+  | [t, "IB", _] => do some (← t.toNat?, .installBegin)
+  | [t, "IE"] => do some (← t.toNat?, .installEnd)
+  | _ => none
+
+def showPoolEv : Nat × Pool.Ev → String
+  | (t, e) => s!"{t}:{reprStr e}"
+
+/-- `none` = the log conforms; `some (expected, got)` otherwise -/
+def poolTraceCheck (toks : List String) : Option (String × String) :=
+  match toks.mapM parsePoolEv with
+  | none => some ("a parsable event log", String.intercalate " " (toks.take 6))
+  | some raw =>
+    -- dense thread indices in order of first appearance
+    let tids := raw.foldl (fun acc p => if acc.contains p.1 then acc else acc ++ [p.1]) ([] : List Nat)
+    let log := raw.map (fun p => (tids.idxOf p.1, p.2))
+    -- the stored pool before the log: what the first read saw, unless something was written before
+    let pool0 := (log.findSome? (fun p => match p.2 with
+      | .readRel seen => some seen
+      | .writeRel _ => some none
+      | _ => none)).getD none
+    let n := tids.length
+    match Pool.replay (Pool.initOf pool0 n log) log 0 with
+    | .error i =>
+      let ctx := (log.drop (i - min i 6)).take (min i 6 + 1)
+      some (s!"a move of Pool.Step at event {i}", s!"threads={n} pool0={reprStr pool0} ... " ++ String.intercalate " " (ctx.map showPoolEv))
+    | .ok s =>
+      if s.threads.flatten.isEmpty && s.pending.isEmpty then none
+      else some ("every call returned at the end of the log", s!"{s.threads.flatten.length} call(s) still in progress")
 
 /-! ### register commands -/
 
@@ -1161,7 +1202,12 @@ def step (st : DSt) (r : Report) (ln : Nat) (cmd obs : List String) : DSt × Rep
     (st, specCheck r st ln "c08.equal" (obs.head? == some "equal") "equal" (String.intercalate " " (obs.take 4)))
   | "conc" :: _ =>
     -- SPEC (C19): every call returned and every task's result equals the calls made alone
-    (st, specCheck r st ln "c19.conc" (obs.head? == some "ok") "ok" (String.intercalate " " (obs.take 4)))
+    let r := specCheck r st ln "c19.conc" (obs.head? == some "ok") "ok" (String.intercalate " " (obs.take 4))
+    -- MODEL (C19): the event log of threads.rs is a run of the transition system of Model/Pool.lean
+    -- that ends with every call returned
+    match poolTraceCheck (obs.dropWhile (· != "log")).tail with
+    | none => (st, r)
+    | some (want, got) => (st, r.mismatch st ln "conc.trace" want got)
   | ["qreg", n, thr] =>
     let r := match tokNat thr with
       | some k =>
